@@ -141,7 +141,7 @@ struct list_runner
     unsigned len = static_cast<unsigned>(g.below(50)) + 1;
     for (unsigned st = 0; st < len && ok; ++st)
     {
-      unsigned op = static_cast<unsigned>(g.below(14));
+      unsigned op = static_cast<unsigned>(g.below(16));
       int li = static_cast<int>(g.below(NL)), lj = static_cast<int>(g.below(NL));
       int ei = static_cast<int>(g.below(NE)), ej = static_cast<int>(g.below(NE));
       auto &Li = ls[static_cast<std::size_t>(li)];
@@ -275,6 +275,26 @@ struct list_runner
           opn = "new-list";
         }
         break;
+      case 14:
+        // self move assignment (through a reference, as it happens in generic code: swap-like rotations, erase-remove
+        // with equal positions): the element stays where it is
+        if (Ei)
+        {
+          vf::extend_case(" self_move_assign(e%d)", ei);
+          opn = where[static_cast<std::size_t>(ei)] >= 0 ? "element-self-move-assign-linked" : "element-self-move-assign-unlinked";
+          El &alias = *Ei;
+          *Ei = std::move(alias);
+        }
+        break;
+      case 15:
+        if (Li)
+        {
+          vf::extend_case(" list_self_move_assign(L%d)", li);
+          opn = ml[static_cast<std::size_t>(li)].empty() ? "list-self-move-assign-empty" : "list-self-move-assign-nonempty";
+          L &alias = *Li;
+          *Li = std::move(alias);
+        }
+        break;
       }
       if (opn.empty())
         continue;
@@ -330,6 +350,12 @@ std::function<void(int)> g_in_unregister;
 // destruction of ANOTHER connection from inside a callback while the signal is being called: set by the runner
 std::function<void(int)> g_during_call;
 bool g_suppress_reentrant_call = false;
+// a callback that throws: the exception reaches the caller of the signal, later callbacks are not invoked, and the signal
+// is what it was (the next call invokes every live connection again)
+struct callback_fault
+{
+};
+int g_throwing_connection = -1;
 
 int callback_value(int conn, int arg) { return conn * 7 + arg; }
 int combine(int a, int b) // not commutative, not associative; unsigned arithmetic, no overflow
@@ -379,6 +405,8 @@ struct signal_runner
       g_calls.push_back({id, a});
       if (g_during_call)
         g_during_call(id);
+      if (g_throwing_connection == id)
+        throw callback_fault{};
       if constexpr (Returns)
         return callback_value(id, a);
     };
@@ -485,6 +513,40 @@ struct signal_runner
     vf::count("signal/callbacks-invoked", g_calls.size());
   }
 
+  void call_throwing(int si, int arg, int thrower)
+  {
+    Sig &s = *sigs[static_cast<std::size_t>(si)].sig;
+    std::vector<int> const m = ms[static_cast<std::size_t>(si)];
+    g_calls.clear();
+    std::vector<call_log_entry> want;
+    for (int id : m)
+    {
+      want.push_back({id, arg});
+      if (id == thrower)
+        break;
+    }
+    g_throwing_connection = thrower;
+    bool threw = false;
+    try
+    {
+      if constexpr (Returns)
+        (void)s(typename Sig::initial_value{1000 + arg}, arg);
+      else
+        s(arg);
+    }
+    catch (callback_fault const &)
+    {
+      threw = true;
+    }
+    g_throwing_connection = -1;
+    if (!threw)
+      fail("call/throwing-callback/exception-swallowed", "the exception of a callback did not reach the caller");
+    if (!(g_calls == want))
+      fail("call/throwing-callback/callback-sequence", "callbacks invoked before the exception differ from the connection order up to the throwing one");
+    VF_COUNT("signal/call/callback-throws");
+    call(si, arg); // the signal is intact
+  }
+
   void run(std::uint64_t idx, std::string const &e)
   {
     g = vf::rng(vf::seed_for(e, idx));
@@ -539,6 +601,13 @@ struct signal_runner
           vf::extend_case(" call(S%d,%d)", si, arg);
           auto const &cur = ms[static_cast<std::size_t>(si)];
           opn = cur.empty() ? "call-empty" : (cur.size() > 2 ? "call-three-or-more" : "call-one-or-two");
+          if (!cur.empty() && g.chance(1, 8))
+          {
+            int const thrower = cur[g.below(cur.size())];
+            vf::extend_case("[callback of connection %d throws]", thrower);
+            call_throwing(si, arg, thrower);
+            break;
+          }
           // in a third of the calls on two or more connections one callback destroys another connection of this signal
           if (cur.size() >= 2 && g.chance(1, 3))
           {
@@ -694,7 +763,7 @@ void drive(std::string const &e, std::uint64_t total)
 void body()
 {
   for (char const *b :
-       {"intrusive/op/create", "intrusive/op/destroy-linked", "intrusive/op/destroy-unlinked", "intrusive/op/unlink-linked",
+       {"intrusive/op/element-self-move-assign-linked", "intrusive/op/list-self-move-assign-nonempty", "intrusive/op/create", "intrusive/op/destroy-linked", "intrusive/op/destroy-unlinked", "intrusive/op/unlink-linked",
         "intrusive/op/unlink-unlinked", "intrusive/op/element-move-ctor-linked", "intrusive/op/element-move-ctor-unlinked",
         "intrusive/op/element-move-assign-from-successor", "intrusive/op/element-move-assign-from-predecessor",
         "intrusive/op/element-move-assign-same-list", "intrusive/op/element-move-assign-other-list",
@@ -706,7 +775,7 @@ void body()
         "signal/op/connect", "signal/op/drop-connected", "signal/op/drop-orphaned", "signal/op/call-three-or-more",
         "signal/op/signal-move-ctor-with-connections", "signal/op/signal-move-assign-nonempty-to-nonempty",
         "signal/op/signal-move-assign-empty-to-nonempty", "signal/op/destroy-signal-before-connections",
-        "signal/callbacks-invoked", "signal/reentrant-calls-from-unregister", "signal/call/callback-destroys-next-connection",
+        "signal/callbacks-invoked", "signal/reentrant-calls-from-unregister", "signal/call/callback-throws", "signal/call/callback-destroys-next-connection",
         "signal/call/callback-destroys-later-connection", "signal/call/callback-destroys-previous-connection", "signal/call/callback-destroys-earlier-connection"})
     vf::require_bucket(b);
   std::uint64_t total = vf::tier<std::uint64_t>(30000, 4000000);
